@@ -165,6 +165,8 @@ func (b *book) holderIncompatibleWith(key int, self *entry) bool {
 	return false
 }
 
+var lastResult sched.Result
+
 func RunSched(c Case) pbt.Outcome {
 	var l locker
 	if c.RW {
@@ -263,6 +265,7 @@ func RunSched(c Case) pbt.Outcome {
 		}
 	}
 	res := s.Run()
+	lastResult = res
 	obs := map[string]any{"trace": traceString(res.Trace)}
 	if bk.viol != "" {
 		return pbt.Outcome{Violation: bk.viol + "\ntrace: " + traceString(res.Trace), Observed: obs}
@@ -439,6 +442,79 @@ var specSched = pbt.Register(&pbt.Spec[Case]{
 })
 
 func TestC09Sched(t *testing.T) { pbt.Check(t, specSched) }
+
+func enumPrograms(three bool, yield func(c Case) bool) {
+	mutexProgs := [][]Sect{
+		{{Kind: "lock", Key: 0}},
+		{{Kind: "try", Key: 0}},
+		{{Kind: "lock", Key: 0, Yields: 1}},
+		{{Kind: "lock", Key: 1}},
+		{{Kind: "lock", Key: 0, Inner: []Sect{{Kind: "lock", Key: 1}}}},
+		{{Kind: "lock", Key: 0, Inner: []Sect{{Kind: "try", Key: 0}}}},
+		{{Kind: "try", Key: 0, Inner: []Sect{{Kind: "try", Key: 1}}}},
+		{{Kind: "lock", Key: 0}, {Kind: "lock", Key: 0}},
+		{{Kind: "lock", Key: 1, Yields: 1}, {Kind: "try", Key: 0}},
+	}
+	rwProgs := append([][]Sect{
+		{{Kind: "rlock", Key: 0}},
+		{{Kind: "tryr", Key: 0}},
+		{{Kind: "rlock", Key: 0, Yields: 1}},
+		{{Kind: "rlock", Key: 0, Inner: []Sect{{Kind: "tryr", Key: 0}}}},
+		{{Kind: "rlock", Key: 0, Inner: []Sect{{Kind: "lock", Key: 1}}}},
+		{{Kind: "tryr", Key: 0, Inner: []Sect{{Kind: "try", Key: 0}}}},
+	}, mutexProgs...)
+	for _, rwm := range []bool{false, true} {
+		progs := mutexProgs
+		if rwm {
+			progs = rwProgs
+		}
+		for _, a := range progs {
+			for _, b := range progs {
+				if !yield(Case{RW: rwm, Keys: 2, Threads: [][]Sect{a, b}}) {
+					return
+				}
+				// a third thread on the other key / same key (thorough only)
+				if three && !yield(Case{RW: rwm, Keys: 2, Threads: [][]Sect{a, b, {{Kind: "lock", Key: 1}}}}) {
+					return
+				}
+			}
+		}
+	}
+}
+
+var specSchedEnum = pbt.Register(&pbt.Spec[Case]{
+	Property: "C09", Name: "C09.schedenum",
+	Rule: "E3 bounded-exhaustive: catalogue of section programs (Lock/TryLock/RLock/TryRLock on key 0 and 1, nested and sequential, with and without a critical-section yield) for 2 (thorough: also 3) threads on never-seen keys, " +
+		"for KeyedMutex and KeyedRWMutex; for each program ALL schedules with at most 2 (thorough: 3) non-default scheduling choices, by stateless re-execution; same phase-book oracle as C09.sched",
+	Enum: func(shard, shards int, tier string, yield func(Case) bool) {
+		bound := 2
+		if tier == "thorough" {
+			bound = 3
+		}
+		i := 0
+		enumPrograms(tier == "thorough", func(c Case) bool {
+			i++
+			if i%shards != shard {
+				return true
+			}
+			ok := true
+			sched.EnumSchedules(bound, func(schedule []int) ([]int, bool) {
+				cc := c
+				cc.Sched = append([]int(nil), schedule...)
+				lastResult = sched.Result{}
+				if !yield(cc) {
+					ok = false
+					return nil, true
+				}
+				return lastResult.OptCounts, false
+			})
+			return ok
+		})
+	},
+	Run: RunSched, Exhaustive: true, Crashy: true, Retries: 30,
+})
+
+func TestC09SchedEnum(t *testing.T) { pbt.Check(t, specSchedEnum) }
 
 // ---------------------------------------------------------------- E4 free-running
 
